@@ -21,7 +21,9 @@ RULE = ("whole-model runs in an analytic still-water plug-in world without bound
         "and cumulatively: |mean| <= 6.5 sigma/sqrt(N), variance within 6.5*sqrt(2/N) of 2*D*dt/dx^2 (dy for Y, "
         "2*Dz*dt for Z), correlation X-Y, X-Z, lag-1 autocorrelation of increments and correlation between "
         "neighbouring particles within 6.5/sqrt(N), cloud variance growing as 2*D*t; with D = Dz = 0 in a rotating "
-        "flow two runs with different injected seeds must be bit-identical. Non-trivial: >= 2 steps judged; distinct "
+        "flow two runs with different injected seeds must be bit-identical; a tenth of the cases continues a cloud far "
+        "from the grid origin, with steps near the single-precision resolution of its coordinates, from an output "
+        "file holding 32-bit positions (warm start). Non-trivial: >= 2 steps judged; distinct "
         "by the parameter setting")
 COMPONENTS = {"real": ["Tracker.update (diffuse, diffuse_vert, conversion to grid units, reflection code path)",
                        "Model loop", "State"],
@@ -31,7 +33,7 @@ ASSUMPTIONS = ["acceptance bands are 6.5 standard errors wide; a wrong factor (2
                "normality of the increments is not part of the statement and is not tested"]
 TIERS = {"quick": dict(runs=160, budget_s=45, shrink=30, min_nontrivial=2),
          "thorough": dict(runs=900, budget_s=900, shrink=60)}
-REQUIRED_PROBES = ["horizontal", "vertical", "anisotropic", "zero_coefficients"]
+REQUIRED_PROBES = ["horizontal", "vertical", "anisotropic", "zero_coefficients", "warm_start_f4"]
 CASE_TIMEOUT = 600
 
 
@@ -40,7 +42,7 @@ def generate(seed: int, tier: str, idx: int) -> dict:
     dt = s.pick([10, 60, 600, 3600, 86400])
     dx = s.pick([10.0, 200.0, 1000.0, 4000.0, 20000.0])
     dy = dx * (s.pick([0.5, 2.0, 3.0]) if s.chance(0.4) else 1.0)
-    kind = s.wpick([("diff", 8), ("zero", 1)])
+    kind = s.wpick([("diff", 8), ("zero", 1), ("warm", 1)])
     N = 20000 if tier == "quick" else s.pick([20000, 100000, 1000000])
     nsteps = s.randint(2, 12) if N > 100000 else s.randint(2, 50)
     # rms displacement per step between 1e-3 and 3 cells
@@ -53,6 +55,14 @@ def generate(seed: int, tier: str, idx: int) -> dict:
         if s.chance(0.6) or D == 0.0:
             rz = 10 ** s.uniform(-2, 1.5)
             Dz = float(f"{rz * rz / (2 * dt):.6g}")
+    if kind == "warm":
+        # a cloud far from the grid origin taking steps of the order of the single-precision resolution of
+        # its coordinates, continued from an output file that stores positions as 32-bit floats
+        N = 20000
+        nsteps = s.randint(6, 20)
+        r = 10 ** s.uniform(-4.6, -3.3) * dx
+        D = float(f"{r * r / (2 * dt):.6g}")
+        Dz = 0.0
     depth = 1.0e9
     an = {"dx": dx, "dy": dy, "depth": depth, "size": 1.0e9, "flow": {"kind": "still"}}
     if kind == "zero":
@@ -101,6 +111,8 @@ def scenario(sc) -> dict:
     pl = sc["plan"]
     depth = sc["analytic"]["depth"]
     rows = [{"step": 0, "mult": pl["N"], "X": 0.25, "Y": -0.5, "Z": depth / 2, "tag": 0}]
+    if pl["kind"] == "warm":
+        rows = [{"step": 0, "mult": pl["N"], "X": 1000.3, "Y": 900.7, "Z": 10.0, "tag": 0}]
     if pl["kind"] == "zero":
         rows = [{"step": 0, "mult": 1, "X": 1.0 + 0.01 * k, "Y": 2.0 - 0.02 * k, "Z": 5.0, "tag": k} for k in range(50)]
     tr = {"advection": pl["advection"]}
@@ -113,7 +125,8 @@ def scenario(sc) -> dict:
         "time": {"start": "2000-01-01T00:00:00", "dt": pl["dt"], "nsteps": pl["nsteps"]},
         "release": {"rows": rows, "extra": [{"name": "tag", "type": "int"}], "header": True},
         "ibm": {}, "tracker": tr,
-        "output": {"period": pl["nsteps"], "numrec": 0, "ivars": {"pid": "i4", "X": "f8"}},
+        "output": ({"period": pl["nsteps"], "numrec": 0, "ivars": {"pid": "i4", "X": "f8"}} if pl["kind"] != "warm" else
+                   {"period": 2, "numrec": 1, "ivars": {"pid": "i4", "X": "f4", "Y": "f4", "Z": "f4", "tag": "i4"}}),
         "spelling": "yaml2",
     }
 
@@ -167,7 +180,23 @@ def execute(sc) -> Result:
                 incs.append((X1 - X0, Y1 - Y0, Z1 - Z0, X1, Y1, Z1, snap["step"]))
         rec.snaps.clear()
 
-    run = driver.run_scenario(s2, rng_seed=pl["rng"], monitors=[monitor])
+    if pl["kind"] == "warm":
+        d = world.new_dir()
+        s1 = copy.deepcopy(s2)
+        s1["time"]["nsteps"] = 2
+        run1 = driver.run_scenario(s1, d, rng_seed=pl["rng"] + 5, snap=False)
+        account_run(res, run1, s1)
+        incs.clear()
+        state0.clear()
+        if run1.error is not None:
+            res.aborted_foreign += 1
+            world.rm_dir(d)
+            return res
+        run = driver.run_scenario(s2, d, write=False, warm_file=str(d / "out_000.nc"), out_name="warm_001.nc",
+                                  cfg_name="warm", rng_seed=pl["rng"], monitors=[monitor])
+        res.probes["warm_start_f4"] += 1
+    else:
+        run = driver.run_scenario(s2, rng_seed=pl["rng"], monitors=[monitor])
     try:
         account_run(res, run, s2)
         v, foreign = crash_violation(ID, run, ANCHORS)
